@@ -8,10 +8,40 @@ built-in fact: len(x) >= 0, 0 <= idx#(x) <= len(x) - 1) has the same linear part
 from .sval import NONE, is_const, cval, strip_ids, norm_pc
 
 
+def len_parts(x):
+    """len(x) as a list of summands: len(a + b) = len(a) + len(b); len(bytes(y)) = len(y) for a byte string y; len(pack(FMT, ..)) and
+    len(<constant>) are numbers - or None when x has no such reading"""
+    if x[0] == 'add':
+        out = []
+        for y in x[1]:
+            p = len_parts(y)
+            out += p if p is not None else [LEN(y)]
+        return out
+    if x[0] == 'call' and x[1] in ('builtins.bytearray', 'builtins.bytes') and len(x[3]) == 1:
+        y = x[3][0][1]
+        if y[0] == 'add' or (y[0] == 'call' and y[1] in ('struct.pack', 'builtins.bytes', 'builtins.bytearray')) or (
+                is_const(y) and isinstance(cval(y), bytes)):
+            return len_parts(y) or [LEN(y)]
+        return None
+    if x[0] == 'call' and x[1] == 'struct.pack' and x[3] and is_const(x[3][0][1]) and isinstance(cval(x[3][0][1]), str):
+        import struct
+        try:
+            return [('const', 'int', struct.calcsize(cval(x[3][0][1])))]
+        except struct.error:
+            return None
+    if is_const(x) and isinstance(cval(x), (bytes, str)):
+        return [('const', 'int', len(cval(x)))]
+    return None
+
+
 def linear(t):
     """(frozenset of (symbol term, coefficient), constant) for integer-valued terms"""
     if is_const(t) and isinstance(cval(t), int) and not isinstance(cval(t), bool):
         return {}, cval(t)
+    if t[0] == 'call' and t[1] == 'builtins.len' and len(t[3]) == 1:
+        parts = len_parts(t[3][0][1])
+        if parts is not None:
+            return linear(('add', tuple(parts)))
     if t[0] == 'add':
         co, k = {}, 0
         for x in t[1]:
@@ -203,3 +233,18 @@ def poly(t, subst=None):
                     out[m] = out.get(m, 0) + c1 * c2
         return {m: c for m, c in out.items() if c}
     return {(t,): 1}
+
+
+def proves(test, pc):
+    """the comparison (or conjunction of comparisons) `test` follows from the path condition by the linear facts above"""
+    test = strip_ids(test)
+    if test[0] == 'and':
+        return all(proves(x, pc) for x in test[1])
+    if test[0] == 'not' and test[1][0] == 'cmp' and test[1][1] in ('<', '<='):
+        a, b, strict = test[1][3], test[1][2], test[1][1] == '<='      # not (a < b)  ==  b <= a ; not (a <= b) == b < a
+    elif test[0] == 'cmp' and test[1] in ('<', '<='):
+        a, b, strict = test[2], test[3], test[1] == '<'
+    else:
+        return False
+    co, k = _sub(linear(a), linear(b))          # a - b <= 0 (or <= -1)
+    return holds((co, -k - (1 if strict else 0)), facts(pc))
